@@ -279,7 +279,7 @@ pub fn worker_walks(a: &WorkerArgs, fate: Fate, max_len: usize, extra: usize) ->
                     continue;
                 }
                 let salt = derive_seed(a.seed, n, 12);
-                let hasher = ALL_HKINDS[(salt % 8) as usize];
+                let hasher = ALL_HKINDS[(salt % 9) as usize];
                 let capacity = CAPACITIES[((salt >> 8) % 9) as usize];
                 let mut ops = build_ops(len, salt);
                 ops.push(Op::IterWalk { kind, calls: pat.clone(), rest: Rest::Stop, fate });
@@ -550,6 +550,7 @@ pub fn shared_case_strategy() -> proptest::strategy::BoxedStrategy<SharedCase> {
     use proptest::prelude::*;
     let mut p = Profile::base("shared-prefix");
     p.side = 0;
+    p.inject = 0;
     p.clone = 1;
     p.walk = 1;
     p.insert = 40;
@@ -600,4 +601,55 @@ pub fn worker_shared(a: &WorkerArgs) -> Accum {
         Err(TestError::Abort(r)) => acc.notes.push(format!("proptest aborted: {}", r)),
     }
     acc
+}
+
+// ------------------------------------------------- corpus and fuzz seeds
+
+/// Replays every committed case of corpus/cache (shrunk regressions, seeds).
+pub fn worker_corpus(a: &WorkerArgs, dir: &Path) -> Accum {
+    let mut acc = Accum::default();
+    let mut files: Vec<std::path::PathBuf> = std::fs::read_dir(dir).map(|rd| rd.flatten().map(|e| e.path())
+        .filter(|p| p.extension().map(|e| e == "case").unwrap_or(false)).collect()).unwrap_or_default();
+    files.sort();
+    for f in files {
+        let text = match std::fs::read_to_string(&f) { Ok(t) => t, Err(_) => continue };
+        let case = match Case::from_text(&text) { Ok(c) => c, Err(e) => { acc.notes.push(format!("{}: {}", f.display(), e)); continue; } };
+        write_current(a.out, &case.to_text());
+        let out = run_case(&case, Some(a.prop), false);
+        match judge(&out.fails, a.prop, a.known) {
+            Verdict::Pass => acc.add_case(a.prop, &out.stats, || sample_text(&case)),
+            Verdict::Known(sig) => { acc.cases += 1; *acc.known.entry(sig).or_insert(0) += 1; },
+            Verdict::Foreign(sig) => { acc.cases += 1; *acc.foreign.entry(sig).or_insert(0) += 1; },
+            Verdict::Violation(fl) => {
+                let out = run_case(&case, Some(a.prop), true);
+                acc.violations.push(Violation { replay_text: replay_text(a.prop, &case, Some(&fl), &out.trace), msg: fl.msg.clone(), sig: fl.sig.clone() });
+            },
+        }
+    }
+    acc
+}
+
+/// Deterministic sample of generated cases from all profiles (fuzz seeds).
+pub fn sample_cases(n: u32, seed: u64) -> Vec<Case> {
+    use proptest::strategy::{Strategy, ValueTree};
+    let mut out = Vec::new();
+    let props = ["C01", "C03", "C04", "C06", "C07", "C10", "C11", "C12", "C13", "C14", "C15", "C17", "C19", "C20"];
+    let per = (n as usize / props.len()).max(1);
+    for (i, p) in props.iter().enumerate() {
+        let mut profile = Profile::for_property(p, false);
+        profile.max_ops = 40;
+        profile.inject = 3;
+        let strategy = gen::case(&profile);
+        let mut runner = TestRunner::new(pt_config(1, derive_seed(seed, i as u64, 77)));
+        for _ in 0..per {
+            if let Ok(tree) = strategy.new_tree(&mut runner) {
+                let c = tree.current();
+                // only what the byte codec represents faithfully
+                if UNIVERSES.contains(&c.config.universe) {
+                    out.push(c);
+                }
+            }
+        }
+    }
+    out
 }
